@@ -34,6 +34,10 @@ inductive Op
   | exit
   deriving Repr, Inhabited
 
+def FOp.needsManagerLock : FOp → Bool
+  | .create .. => true
+  | _ => false
+
 def FOp.show : FOp → String
   | .tick dt => s!"K_{dt}"
   | .tstart a => s!"T_{a}_start"
@@ -169,7 +173,11 @@ def runInj (table : List (Nat × Nat × List FOp)) (s : BSt) (site : Nat) : BSt 
   match table.find? (fun x => x.1 = site ∧ x.2.1 = k) with
   | none => s1
   | some (_, _, ops) =>
-    ops.foldl (fun s f => let r := applyFront s f; r.1.emit (.inj site k f.show r.2)) s1
+    ops.foldl (fun s f =>
+      -- site 9 is inside `LoggerManager::cleanup_invalidated_loggers`, which holds the manager's lock: a frontend call
+      -- that needs that lock (`create_or_get_logger`) cannot run there — it would spin until the clean-up is over
+      let r := if site = 9 && f.needsManagerLock then (s, "noop") else applyFront s f
+      r.1.emit (.inj site k f.show r.2)) s1
 
 def applyOp (s : BSt) : Op → BSt × String
   | .front f => applyFront s f
